@@ -47,6 +47,7 @@ func newFilterSubscription(log logutil.Log, parent Subscription, f filter.Filter
 		log:        log,
 	}
 
+	verifTrace(s, "fsub.new", parent, s.cache, f, deferReady)
 	go s.run()
 
 	return s
@@ -96,10 +97,12 @@ loop:
 		select {
 		case err := <-s.lc.ShutdownRequest():
 			s.log.Debugf("shutdown requested: %v", err)
+			verifTrace(s, "fsub.stopping", err)
 			s.lc.ShutdownInitiated(err)
 			break loop
 
 		case <-preadych:
+			verifTrace(s, "fsub.pready", pending)
 
 			preadych = nil
 
@@ -111,17 +114,21 @@ loop:
 			list, err := s.parent.Cache().List()
 			if err != nil {
 				s.log.Debugf("parent ready: cache list error: %v", err)
+				verifTrace(s, "fsub.stopping", err)
 				s.lc.ShutdownInitiated(errors.Wrap(err, "parent ready: cache list"))
 				break loop
 			}
 
 			if _, err := s.cache.sync(list); err != nil {
 				s.log.Debugf("parent ready: cache sync error: %v", err)
+				verifTrace(s, "fsub.stopping", err)
 				s.lc.ShutdownInitiated(errors.Wrap(err, "parent ready: cache sync"))
 				break loop
 			}
 
+			verifTrace(s, "fsub.synced", list)
 			s.log.Debugf("parent ready: making ready")
+			verifTrace(s, "fsub.ready")
 			close(s.readych)
 			ready = true
 
@@ -129,6 +136,7 @@ loop:
 			s.log.Debugf("refiltering...")
 
 			isNew := !filter.FiltersEqual(s.filter, f)
+			verifTrace(s, "fsub.refilter", f, isNew, preadych != nil, ready, pending)
 
 			switch {
 
@@ -140,9 +148,11 @@ loop:
 			case preadych != nil && isNew:
 				if _, err := s.cache.refilter(nil, f); err != nil {
 					s.log.Debugf("refilter: cache refilter (not ready): %v", err)
+					verifTrace(s, "fsub.stopping", err)
 					s.lc.ShutdownInitiated(errors.Wrap(err, "refilter: cache refilter (not ready)"))
 					break loop
 				}
+				verifTrace(s, "fsub.refiltered", nil, nil)
 				s.log.Debugf("refilter: deferring ready (filter changed)")
 				s.filter = f
 				pending = true
@@ -154,6 +164,7 @@ loop:
 
 			case !ready && !isNew:
 				s.log.Debugf("refilter: making ready (filter unchanged)")
+				verifTrace(s, "fsub.ready")
 				close(s.readych)
 				ready = true
 				continue
@@ -165,6 +176,7 @@ loop:
 			list, err := s.parent.Cache().List()
 			if err != nil {
 				s.log.Debugf("refilter: cache list error: %v", err)
+				verifTrace(s, "fsub.stopping", err)
 				s.lc.ShutdownInitiated(errors.Wrap(err, "refilter: cache list"))
 				break loop
 			}
@@ -172,13 +184,16 @@ loop:
 			events, err := s.cache.refilter(list, f)
 			if err != nil {
 				s.log.Debugf("refilter: cache refilter error: %v", err)
+				verifTrace(s, "fsub.stopping", err)
 				s.lc.ShutdownInitiated(errors.Wrap(err, "refilter: cache refilter"))
 				break loop
 			}
+			verifTrace(s, "fsub.refiltered", list, events)
 			s.filter = f
 
 			if !ready {
 				s.log.Debugf("refilter: making ready (filter changed)")
+				verifTrace(s, "fsub.ready")
 				close(s.readych)
 				ready = true
 				continue
@@ -189,10 +204,12 @@ loop:
 			s.distributeEvents(events)
 
 		case evt, ok := <-s.parent.Events():
+			verifTrace(s, "fsub.in", evt, ok, ready)
 
 			switch {
 			case !ok:
 				s.log.Debugf("update: parent closed")
+				verifTrace(s, "fsub.stopping", nil)
 				s.lc.ShutdownInitiated(nil)
 				break loop
 			case !ready:
@@ -202,10 +219,12 @@ loop:
 			events, err := s.cache.update(evt)
 			if err != nil {
 				s.log.Debugf("update: cache update error %v", err)
+				verifTrace(s, "fsub.stopping", nil)
 				s.lc.ShutdownInitiated(nil)
 				break loop
 			}
 
+			verifTrace(s, "fsub.updated", evt, events)
 			s.log.Debugf("update: %v events", len(events))
 
 			s.distributeEvents(events)
@@ -215,6 +234,7 @@ loop:
 
 	s.parent.Close()
 
+	verifTrace(s, "fsub.closed")
 	close(s.outch)
 
 	<-s.parent.Done()
@@ -222,9 +242,11 @@ loop:
 
 func (s *filterSubscription) distributeEvents(events []Event) {
 	for _, evt := range events {
+		verifTrace(s, "fsub.out", evt)
 		select {
 		case s.outch <- evt:
 		default:
+			verifTrace(s, "fsub.drop", evt)
 			s.log.Warnf("event buffer overrun")
 		}
 	}
